@@ -23,7 +23,9 @@ fn between<'a>(s: &'a str, open: &str, close: &str) -> Option<&'a str> {
 pub fn load_relate_cases() -> (Vec<JtsCase>, usize) {
     let mut out = vec![];
     let mut total = 0;
-    let root = "/repo/jts-test-runner/resources/testxml";
+    let repo = std::env::var("VERIF_REPO").unwrap_or_else(|_| "/repo".to_string());
+    let root = format!("{}/jts-test-runner/resources/testxml", repo);
+    let root = root.as_str();
     for dir in ["general", "validate", "misc"] {
         let mut files: Vec<_> = match std::fs::read_dir(format!("{}/{}", root, dir)) {
             Ok(d) => d.filter_map(|e| e.ok()).map(|e| e.path()).collect(),
